@@ -8,10 +8,14 @@
   of C07 with atomic jobs.  Together with the store contract (C08 for local stores, C03) and C02
   (`make_index_exact`: the index of a fresh `ChunkStream` is `chunkAll` with IDs `H(slice)`), a
   reported success means every referenced chunk is in the target store.
+  The pool machine is tied to chop.go / copy.go by event traces recorded under a cooperative scheduler
+  with scripted store faults (`pool.accept`); the harness compares the machine's completed jobs with
+  the final content of the target store.
 -/
 import Desync.Proofs.PoolCSProofs
 import Desync.Proofs.PoolProofs
 import Desync.Proofs.ChunkStreamProofs
+import Desync.Proofs.PoolJobsProofs
 
 namespace Desync.C06
 open Desync
@@ -44,6 +48,16 @@ theorem copy_success_all_done (sh : Pool.PoolShape) (jobs n : Nat) (s : Pool.St)
     (hc : s.parentCancelled = false) (he : s.groupErr = false) :
     r = .ok ∧ ∀ j, j < jobs → s.done.getD j false = true :=
   Pool.no_cancel_all_done sh jobs n s r h hr hc he
+
+/-- `Copy` with the outcome of every job fixed (job j fails iff `good j = false`: a store operation on
+    its chunk fails): without cancellation, under every schedule and worker count, the command succeeds
+    iff no job fails — a failing store operation is always reported and there is no spurious error; the
+    result is never `Interrupted` -/
+theorem copy_success_iff_no_job_fails (sh : Pool.PoolShape) (good : Nat → Bool) (jobs n : Nat) (s : Pool.St)
+    (r : Pool.Res) (h : Pool.ReachableJ sh good (Pool.St.init jobs n) s) (hr : s.result = some r)
+    (hc : s.parentCancelled = false) :
+    (r = .ok ↔ ∀ j, j < jobs → good j = true) ∧ (r = .ok ∨ r = .err) :=
+  Pool.okJ_iff_all_good sh good jobs n s r h hr hc
 
 /-- **regenerated obligation**: `ChunkStorage.StoreChunk` still has the modelled order — mark,
     HasChunk, (deferred un-mark registered), StoreChunk -/
